@@ -1297,6 +1297,13 @@ func TestRegress(t *testing.T) {
 // loadAndRun runs the case named by VERIF_REPLAY with the case type of its
 // stage.
 func loadAndRun() (c any, r stats.Result, err error) {
+	if stats.ReplayStage() == "emucu" {
+		var ec ECase
+		if _, err = stats.LoadReplay(&ec); err != nil {
+			return nil, r, err
+		}
+		return ec, RunECase(ec), nil
+	}
 	if stats.ReplayStage() == "e2e" {
 		var ec E2ECase
 		if _, err = stats.LoadReplay(&ec); err != nil {
